@@ -6,9 +6,18 @@ from .common import *
 from .binners import VALUEOF
 from .objectives import zmin, zmax
 
+def _k_extreme(s, k, smallest):
+    """sum of the k smallest / largest entries of a vector of terms, as a term: max / min over all k-subsets"""
+    k = min(k, len(s))
+    subs = [sum([s[i] for i in T], z3.RealVal(0)) for T in itertools.combinations(range(len(s)), k)]
+    return zmin(subs) if smallest else zmax(subs)
+
+
 OBJ = {"difference": ("MinimizeDifference", lambda s: zmax(s) - zmin(s)),
        "min-max": ("MinimizeLargestSum", lambda s: zmax(s)),
-       "max-min": ("MaximizeSmallestSum", lambda s: -zmin(s))}
+       "max-min": ("MaximizeSmallestSum", lambda s: -zmin(s)),
+       "2-smallest": (("MaximizeKSmallestSums", 2), lambda s: -_k_extreme(s, 2, True)),
+       "2-largest": (("MinimizeKLargestSums", 2), lambda s: _k_extreme(s, 2, False))}
 
 
 def int_items(it, n):
@@ -118,7 +127,8 @@ class ExactPartition(FunctionContract):
         args = {"binner": it.instantiate(cls, [VALUEOF], {}), "numbins": k, "items": PList(list(xs))}
         if self.objname and "objective" in self.takes:
             O = it.load_module("prtpy.objectives")
-            args["objective"] = it.force(O.attrs[OBJ[self.objname][0]])
+            spec = OBJ[self.objname][0]
+            args["objective"] = it.force(O.attrs[spec]) if isinstance(spec, str) else it.instantiate(it.force(O.attrs[spec[0]]), [spec[1]], {})
         args.update(self.extra)
         return args
 
@@ -155,7 +165,8 @@ class ExactPartition(FunctionContract):
         f = getattr(importlib.import_module(path[:-3].replace("/", ".")), fn)
         kw = dict(w.get("extra") or {})
         if self.objname and "objective" in self.takes:
-            kw["objective"] = getattr(prtpy.obj, OBJ[w["objective"]][0])
+            spec = OBJ[w["objective"]][0]
+            kw["objective"] = getattr(prtpy.obj, spec) if isinstance(spec, str) else getattr(prtpy.obj, spec[0])(spec[1])
         r = prtpy.partition(algorithm=f, numbins=w["numbins"], items=list(w["values"]), outputtype=prtpy.out.Sums, **kw)
         return sorted(float(x) for x in r)
 
@@ -375,7 +386,12 @@ class CkkGenerator(FunctionContract):
 
 ckk_generator = CkkGenerator()
 C11_CONTRACTS = [("contracts.exact", n) for n in ("cg_anytime_difference", "cg_anytime_minmax", "cg_anytime_maxmin", "cbldm_anytime", "ckk_generator")]
-EXACT_CONTRACTS = [("contracts.exact", n) for n in ("cg_difference", "cg_minmax", "cg_maxmin", "ckk", "ckk_contents", "dp_difference", "dp_minmax", "dp_maxmin")]
+dp_2smallest = ExactPartition("dp", "prtpy/partitioning/dynamic_programming.py::optimal", "2-smallest",
+                              shapes_quick=[(n, k) for n in (2, 3) for k in (2, 3)], shapes_thorough=[(n, k) for n in (2, 3) for k in (2, 3, 4)])
+dp_2largest = ExactPartition("dp", "prtpy/partitioning/dynamic_programming.py::optimal", "2-largest",
+                             shapes_quick=[(n, k) for n in (2, 3) for k in (2, 3)], shapes_thorough=[(n, k) for n in (2, 3) for k in (2, 3, 4)])
+EXACT_CONTRACTS = [("contracts.exact", n) for n in ("cg_difference", "cg_minmax", "cg_maxmin", "ckk", "ckk_contents", "dp_difference", "dp_minmax", "dp_maxmin",
+                                                    "dp_2smallest", "dp_2largest")]
 
 
 # ------------------------------------------------------------------------------------------------ heuristics at bounded shape (C01, C08)
